@@ -113,6 +113,12 @@ def build_pool(tier="quick", parts=("A", "M", "K", "K1"), model_tier=None):
         m, sz = model_programs(model_tier or tier)
         pool += m
         sizes.update(sz)
+    if "M" in parts:
+        # regression anchors: the example input of every recorded finding of
+        # every property (repaired or open) stays in the pool explicitly
+        xs = [("X", e) for e in core.known_examples() if isinstance(e, str)]
+        pool += xs
+        sizes["X"] = len(xs)
     if "K" in parts:
         ks = [(f"K:{n}", t) for n, t in corpus.corpus(tier)]
         pool += ks
